@@ -19,7 +19,7 @@ import (
 )
 
 func init() {
-	Register(&Scenario{Prop: "C18", Name: "close-drop", Run: scenC18, SoftParks: true, Weight: 1,
+	Register(&Scenario{Prop: "C18", Name: "close-drop", Run: scenC18, SoftParks: true, Weight: 4,
 		Rule: "instance P with 1-3 databases and a feeder peer Q; 2-8 writes and replications; then Close of one store, Close of the instance, or Drop of one store at a moment drawn per run: idle, while a writer is parked at one of the three write-path hooks, while block fetches of a replication are pending, while a fetched batch is parked before being joined (load-end hook), while a head exchange waits on the pairwise channel for a peer that subscribed to the database topics only (the closed store must take its share of those waiting goroutines with it), or while Load(-1) runs (local block reads take kernel steps then; 0-6 of them are served before the action); Close is repeated 1-3 times; afterwards every public operation is invoked once on the closed object and must return within 30 virtual seconds without panic; 15 virtual seconds later the per-creator counts of goroutines created in go-orbit-db / go-ipfs-log packages must be back to the counts taken before the closed object was opened; after Close, reopen + Load(-1) must recover every acknowledged entry; after Drop the database reopens empty and the sibling databases' contents and cache keys are unchanged; non-trivial = the close happened at a non-idle moment or the object had replicated entries, and all post-close operations were exercised"})
 }
 
@@ -365,9 +365,18 @@ func scenC18(k *K) {
 		case 2:
 			op = k.Go(0, "drop-store", func() (interface{}, error) { return nil, T.p.Drop() })
 		}
+		// parked goroutines are released only after the first close call has been issued: in half
+		// the runs once the call has come to rest (returned, or waiting for something), in the
+		// other half at once, so that the call and the released goroutines run side by side
+		// from their first statements on (seeded preemptions decide who gets how far)
+		together := r == 0 && len(k.Parks()) > 0 && k.C.Chance(1, 2)
+		if together {
+			k.W.Stat("close-call-and-parked-goroutines-released-together")
+			k.ReleaseAllParks()
+			UninstallHooks()
+		}
 		k.Wait()
-		// parked goroutines are released only after the first close call has been issued
-		if r == 0 {
+		if r == 0 && !together {
 			k.ReleaseAllParks()
 			UninstallHooks()
 		}
